@@ -379,6 +379,10 @@ def simulated_anneal_tree(
         if progbar:
             pbar.update()
 
+    # nodes have been re-created: invalidate the index ordering information
+    # of the nodes depending on them, and any compiled contractions
+    tree.reset_contraction_indices()
+
     return tree
 
 
